@@ -82,6 +82,12 @@ def run(ctx: Ctx) -> None:
     # the list the chunk is appended to is the one stored under that key
     apps = [c for c in own_nodes(osm.node) if isinstance(c, ast.Call) and isinstance(c.func, ast.Attribute) and c.func.attr == "append" and c.args and norm(c.args[0]) == f"{msgp}.data"]
     ctx.ob("C17.R3", osm, "each chunk's data is appended exactly once", len(apps) == 1, f"{len(apps)}")
+    # buffered chunks leave the stream only with their completed image: nothing clears, truncates or pops a key's list
+    # on the strength of a chunk's content (a "new frame started" heuristic would cut real images that contain the marker)
+    parts_names = {norm(c.func.value) for c in apps}
+    losers = [f"L{c.lineno} {norm(c)[:40]}" for c in own_nodes(osm.node) if isinstance(c, ast.Call) and isinstance(c.func, ast.Attribute) and c.func.attr in ("clear", "pop", "remove") and (norm(c.func.value) in parts_names or (norm(c.func.value) == stream and c.func.attr == "clear"))]
+    losers += [f"L{n.lineno} del {norm(t)[:30]}" for n in own_nodes(osm.node) if isinstance(n, ast.Delete) for t in n.targets if isinstance(t, ast.Subscript) and norm(t.value) in parts_names]
+    ctx.ob("C17.R3", osm, "buffered chunks are only ever dropped together with their completed image", not losers, f"{losers[:3]}")
     if len(apps) == 1:
         lst = norm(apps[0].func.value)
         srcs = [n for n in own_nodes(osm.node) if isinstance(n, (ast.Assign, ast.AnnAssign)) and norm(n.targets[0] if isinstance(n, ast.Assign) else n.target) == lst]
@@ -155,6 +161,10 @@ def run(ctx: Ctx) -> None:
     for n in own_nodes(started.node):
         if isinstance(n, ast.Assign) and norm(n.value) == f"{fp}.result()":
             port_var = norm(n.targets[0])
+
+    if port_var:
+        rebinds = [x.lineno for x in own_nodes(started.node) if isinstance(x, (ast.Assign, ast.AugAssign, ast.AnnAssign, ast.NamedExpr)) and any(isinstance(t_, ast.Name) and t_.id == port_var for t_ in (x.targets if isinstance(x, ast.Assign) else [x.target])) and not (isinstance(x, ast.Assign) and norm(x.value) == f"{fp}.result()")]
+        ctx.ob("C17.R4", started, "what the start handler returned is what the answer is decided on (never replaced by a default)", not rebinds, f"`{port_var}` reassigned at line(s) {rebinds}: a handler that returned none would be answered with that value instead of the error response")
 
     def clv(n: Node):
         t = n.ast
